@@ -50,7 +50,7 @@ def yaml_with_anchors(doc):
 
 
 def run(ctx):
-    n = 100 if ctx.tier == "quick" else 2000
+    n = 250 if ctx.tier == "quick" else 3000
     done = 0
     while done < n and ctx.time_left() > 10:
         models = gen_models(ctx, min(100, n - done), max_demes=6 if ctx.tier == "quick" else 9)
